@@ -26,6 +26,8 @@ int gh_n, gh_m;
 int out[R_SIZE], rec[R_SIZE];
 int gh_prior_kept;
 static int cur_a0, cur_a1, cur_b0, cur_b1;
+/* which outputs the overload under check has: the ses-only overloads report no lcs, and only two report ses_len */
+static int chk_lcs = 1, chk_len = 1;
 
 static int lcs_range(int a0, int a1, int b0, int b1)
 {
@@ -52,20 +54,24 @@ static int contract_post(int a0, int a1, int b0, int b1, const int *r, int chk)
   int ok = 1;
   int lcs = lcs_range(a0, a1, b0, b1);
   /* L1, L2 */
-  REQ(0 <= r[R_LCS_N] && r[R_LCS_N] <= NMAX, "L1 lcs gains at most min(|A|,|B|) points");
-  for (int k = 0; k < NMAX; ++k)
-    if (k < r[R_LCS_N])
-      {
-	int x = r[R_LCS_X(k)], y = r[R_LCS_Y(k)];
-	int in = a0 <= x && x < a1 && b0 <= y && y < b1;
-	REQ(in, "L1 lcs point inside the compared ranges");
-	if (in) REQ(gh_eq[x][y], "L1 lcs point is a match of the predicate");
-	if (k > 0) REQ(r[R_LCS_X(k - 1)] < x && r[R_LCS_Y(k - 1)] < y, "L1 lcs points strictly increasing");
-      }
-  REQ(r[R_LCS_N] == lcs, "L2 reported common subsequence has length LCS(A,B)");
+  if (!chk || chk_lcs)
+    {
+      REQ(0 <= r[R_LCS_N] && r[R_LCS_N] <= NMAX, "L1 lcs gains at most min(|A|,|B|) points");
+      for (int k = 0; k < NMAX; ++k)
+	if (k < r[R_LCS_N])
+	  {
+	    int x = r[R_LCS_X(k)], y = r[R_LCS_Y(k)];
+	    int in = a0 <= x && x < a1 && b0 <= y && y < b1;
+	    REQ(in, "L1 lcs point inside the compared ranges");
+	    if (in) REQ(gh_eq[x][y], "L1 lcs point is a match of the predicate");
+	    if (k > 0) REQ(r[R_LCS_X(k - 1)] < x && r[R_LCS_Y(k - 1)] < y, "L1 lcs points strictly increasing");
+	  }
+      REQ(r[R_LCS_N] == lcs, "L2 reported common subsequence has length LCS(A,B)");
+    }
   /* L3 */
-  REQ(r[R_SES_LEN] == (a1 - a0) + (b1 - b0) - 2 * lcs, "L3 ses_len == |A| + |B| - 2 LCS(A,B)");
-  REQ(r[R_ES_LENGTH] == r[R_SES_LEN], "L3 edit_script::length() == ses_len");
+  REQ(r[R_ES_LENGTH] == (a1 - a0) + (b1 - b0) - 2 * lcs, "L3 edit_script::length() == |A| + |B| - 2 LCS(A,B)");
+  if (!chk || chk_len)
+    REQ(r[R_ES_LENGTH] == r[R_SES_LEN], "L3 ses_len == edit_script::length()");
   /* L4 */
   REQ(0 <= r[R_DEL_N] && r[R_DEL_N] <= NMAX, "L4 at most |A| deletions");
   REQ(0 <= r[R_INS_N] && r[R_INS_N] <= NMAX, "L4 at most |B| insertions");
@@ -164,4 +170,32 @@ void h_compute_diff7(void)
   __CPROVER_assert(!gh_eq_calls_oob, "L5 the predicate is only applied to elements of the two sequences");
   contract_post(0, gh_n, 0, gh_m, out, 1);
   CANARY_h_compute_diff7;
+}
+
+/* The forwarding overloads.  Each consists of one call; it is checked against the contract of ITS callee (the call
+   goes to a recording stub): same functor (the default one for the two overloads without a functor parameter), the
+   caller's ranges with base := begin where the overload has no base arguments, the caller's lcs / ses objects (a
+   fresh empty lcs for the ses-only overload, ses_len starting at 0), exactly one call and nothing else touched.
+   With that, the contract of compute_diff (9 arguments) is the contract of every overload.                      */
+int fw_calls, fw_tag, fw_has_base, fw_a_base, fw_a_begin, fw_a_end, fw_b_base, fw_b_begin, fw_b_end;
+int fw_lcs_same, fw_lcs_empty, fw_ses_same, fw_len_zero, fw_outputs_untouched;
+void h_forwarding(void)
+{
+  int which = nondet_int();
+  __CPROVER_assume(which == 8 || which == 6 || which == 60 || which == 7 || which == 5 || which == 50);
+  int a0 = nondet_int(), a1 = nondet_int(), b0 = nondet_int(), b1 = nondet_int();
+  __CPROVER_assume(0 <= a0 && a0 <= a1 && a1 <= NMAX && 0 <= b0 && b0 <= b1 && b1 <= NMAX);
+  fw_calls = 0; fw_tag = 0; fw_lcs_same = 0; fw_ses_same = 0; fw_lcs_empty = 0; fw_len_zero = 0;
+  w_forward(which, a0, a1, b0, b1);
+  int has_base = (which == 8 || which == 7);
+  __CPROVER_assert(fw_calls == 1, "forwarding overload makes exactly one call");
+  __CPROVER_assert(fw_tag == ((which == 60 || which == 50) ? 2 : 1), "forwarding overload passes the caller's predicate on (default_eq_functor when it has none)");
+  __CPROVER_assert(fw_a_begin == a0 && fw_a_end == a1 && fw_b_begin == b0 && fw_b_end == b1, "forwarding overload passes the caller's ranges on");
+  __CPROVER_assert(has_base ? (fw_a_base == 0 && fw_b_base == 0) : (fw_a_base == a0 && fw_b_base == b0), "forwarding overload passes the caller's bases on (base := begin when it has none)");
+  __CPROVER_assert(fw_ses_same, "forwarding overload passes the caller's edit script on");
+  if (which == 8 || which == 6 || which == 60) __CPROVER_assert(fw_lcs_same, "forwarding overload passes the caller's lcs vector on");
+  if (which == 7) __CPROVER_assert(fw_lcs_empty, "ses-only overload hands a fresh, empty lcs vector to its callee");
+  if (which == 8) __CPROVER_assert(fw_len_zero, "ses_len starts at 0");
+  __CPROVER_assert(fw_outputs_untouched, "forwarding overload itself adds nothing to lcs / ses");
+  CANARY_h_forwarding;
 }
